@@ -24,6 +24,7 @@ import json
 import os
 import random
 import time
+import zlib
 from collections import Counter
 from typing import Any
 
@@ -131,6 +132,29 @@ class Ids:
 		return self.map[k]
 
 
+# --- run-time shape of property values vs the shape the translator reads from the getter bodies (Generated/GetterShapes.lean)
+
+SHAPE_CLASSES: dict[str, int] = {}              # class name -> id of the generated class table; filled by run()
+SHAPE_SEEN: dict[tuple[int, str], set[str]] = {}  # (class id, key) -> {'L', 'O'} observed on real nodes
+_SHAPE_ID_OF: dict[type, int | None] = {}
+
+
+def _shape_class_id(t: type) -> int | None:
+	if t.__name__ == 'Proxy' and len(t.__mro__) > 1:  # dirty_proxify: a fresh subclass per proxy node (node.py:492) - never cached
+		return _shape_class_id(t.__mro__[1])
+	if t not in _SHAPE_ID_OF:
+		_SHAPE_ID_OF[t] = SHAPE_CLASSES.get(t.__name__) if t.__module__.startswith('rogw.') else None
+	return _SHAPE_ID_OF[t]
+
+
+def observe_shape(node: Any, key: str, value: Any) -> None:
+	"""Every property value the harness reads from a node of a shipped class is recorded: list or one node."""
+	if SHAPE_CLASSES:
+		cid = _shape_class_id(type(node))
+		if cid is not None:
+			SHAPE_SEEN.setdefault((cid, key), set()).add('L' if isinstance(value, list) else 'O')
+
+
 def is_ann_list(node: Any, key: str) -> bool:
 	"""Independent copy of Procedure.__is_prop_list_by (procedure.py:200-210)."""
 	anno = getattr(type(node), key).fget.__annotations__['return']
@@ -138,7 +162,10 @@ def is_ann_list(node: Any, key: str) -> bool:
 
 
 def prop_values(node: Any) -> list[tuple[str, Any]]:
-	return [(k, getattr(node, k)) for k in node.prop_keys()]
+	out = [(k, getattr(node, k)) for k in node.prop_keys()]
+	for k, v in out:
+		observe_shape(node, k, v)
+	return out
 
 
 def prop_expand(vals: list[tuple[str, Any]]) -> list[Any]:
@@ -1014,12 +1041,16 @@ def spec_walk(root: Any) -> tuple[list[Any], list[dict[str, Any]]]:
 		ev: dict[str, Any] = {}
 		for k in dict.fromkeys(declared_props(type(n))):
 			v = getattr(n, k)
+			observe_shape(n, k, v)
 			ev[k] = [visit(c) for c in v] if isinstance(v, list) else visit(v)
 		order.append(n)
 		expect.append(ev)
 		return len(order) - 1
 	visit(root)
 	return order, expect
+
+
+LAYOUTS = ['fallback', 'fallback', 'dedicated', 'mixed']  # handler layouts of the identity runs (see IdentityRun.wire)
 
 
 class _Boom(Exception):
@@ -1031,13 +1062,35 @@ class IdentityRun:
 	with the independent property walk. A check may start nested checks from inside a handler call (`nest`) and may be
 	preceded by deliberately failing runs on the same Procedure (history)."""
 
-	def __init__(self) -> None:
+	def __init__(self, layout: str = 'fallback', salt: int = 0) -> None:
 		from rogw.tranp.semantics.procedure import Procedure
 		self.proc: Any = Procedure()
-		self.proc.on('on_fallback', self.fb)
+		self.layout = layout
+		self.salt = salt
+		self.dedicated: set[str] = set()
+		if layout != 'dedicated':
+			self.proc.on('on_fallback', self.fb)
 		self.frames: list[dict[str, Any]] = []
 		self.run_ids = itertools.count()
 		self.nested_bad: list[tuple[str, str]] = []
+
+	def wire(self, order: list[Any]) -> None:
+		"""Handler layout (procedure.py:127-133 dispatches on `on_<classification>` first, `on_fallback` second): the law does
+		not depend on which of the two serves a class. 'fallback' = catch-all only; 'dedicated' = one handler per class of the
+		tree and NO catch-all; 'mixed' = catch-all + dedicated handlers for a salt-chosen half of the classes."""
+		if self.layout == 'fallback':
+			return
+		for n in order:
+			c = n.classification
+			if c in self.dedicated:
+				continue
+			if self.layout == 'dedicated' or zlib.crc32(f'{self.salt}:{c}'.encode()) % 2 == 0:
+				self.proc.on(f'on_{c}', self.fb)
+			self.dedicated.add(c)
+
+	def fresh(self) -> 'IdentityRun':
+		"""a new Procedure with the same handler layout (after a finding / an exceeded budget)"""
+		return IdentityRun(self.layout, self.salt)
 
 	def fb(self, node: Any, **kw: Any) -> tuple[Any, int, int]:
 		frame = self.frames[-1]
@@ -1054,6 +1107,7 @@ class IdentityRun:
 
 	def fail_once(self, root: Any, at: int) -> tuple[str, str] | None:
 		"""A run whose handler raises at call `at`: must surface as Errors.Fatal (procedure.py:173-174)."""
+		self.wire(spec_walk(root)[0])
 		frame = {'calls': [], 'nest': {}, 'fail_at': at, 'id': next(self.run_ids)}
 		self.frames.append(frame)
 		try:
@@ -1072,6 +1126,10 @@ class IdentityRun:
 			order, expect = spec_walk(root)
 		except Exception as e:  # noqa: BLE001
 			return (f'getter-raises:{canon_exc(e)}', f'a property getter raised {canon_exc(e)} during the property walk')
+		try:
+			self.wire(order)
+		except Exception as e:  # noqa: BLE001
+			return (f'on-raises:{canon_exc(e)}', f'registering a handler raised {canon_exc(e)}')
 		frame = {'calls': [], 'nest': nest or {}, 'fail_at': None, 'id': next(self.run_ids)}
 		depth = len(stacks_of(self.proc))
 		below = [list(f) for f in stacks_of(self.proc)]
@@ -1299,7 +1357,9 @@ def check_tree_set(rng: random.Random, name: str, roots: list[Any], res: SearchR
 	"""The law on a set of trees sharing ONE Procedure: plain run, repeated run, run after failed runs (stale frames),
 	run with nested runs started from inside handler calls. `must_hold`: the trees are known to be processable
 	(real modules, well-formed synthetic trees) so any exception of the real code is a finding."""
-	run = IdentityRun()
+	layout = rng.choice(LAYOUTS)
+	run = IdentityRun(layout, rng.randrange(1 << 16))
+	hist[f'handler layout: {layout}'] += 1
 	for n, root in enumerate(roots):
 		res.cases += 1
 		mode = n % 4
@@ -1327,10 +1387,10 @@ def check_tree_set(rng: random.Random, name: str, roots: list[Any], res: SearchR
 				bad = ('budget-exceeded', f'checking {type(root).__name__} did not come back: {e}')
 			else:
 				hist['root skipped: budget exceeded'] += 1
-			run = IdentityRun()
+			run = run.fresh()
 		except Exception as e:  # noqa: BLE001 - whatever the real code raised outside exec is a finding, never a harness crash
 			bad = (f'real-code-raises:{canon_exc(e)}', f'{canon_exc(e)} escaped from the real code while checking {type(root).__name__}: {tb_tail(e)}')
-			run = IdentityRun()
+			run = run.fresh()
 		wf_bad = safe_wf(root)
 		hist['trees ok' if not bad else 'trees violating'] += 1
 		for cls, c in wf_bad:
@@ -1340,8 +1400,8 @@ def check_tree_set(rng: random.Random, name: str, roots: list[Any], res: SearchR
 		if bad:
 			key, what = bad
 			res.findings.append(Finding(key=key, what=f'{what} [{name}]' + (f' WF: {wf_bad[:3]}' if wf_bad else ''),
-				replay={'source_name': name, 'root': getattr(root, 'full_path', '?'), 'source': source, 'wf': wf_bad[:10], 'mode': mode}))
-			run = IdentityRun()
+				replay={'source_name': name, 'root': getattr(root, 'full_path', '?'), 'source': source, 'wf': wf_bad[:10], 'mode': mode, 'layout': run.layout, 'salt': run.salt}))
+			run = run.fresh()
 
 
 def search_identity(ctx: Ctx, real_descs: list[dict[str, Any]], gen_descs: list[dict[str, Any]]) -> SearchResult:
@@ -2121,6 +2181,8 @@ STATEMENTS = {
 	'instance_state_is_modelled': 'GENERATED from procedure.py on every run: the attributes of a Procedure instance and the methods writing them are exactly the model state (stacks: __init__/exec/__result/__run_action/__stack_pop; emitter: __init__/on/off/clear_handler; __verbose constructor only), no class-level state, list lengths re-read from the node at event time, root flattened on every exec; 37 modelled functions (procedure.py, node.py, middleware.py, embed.py) pinned to their audited text — a new attribute / another source / an edited modelled function is a TranslateError (broken tie)',
 	'shipped_names_distinct / shipped_prop_keys_history_independent': 'GENERATED table of the 126 node classes (definition/*.py read by ast on every run: names, metadata paths, C3 MROs, expandable getters): no class shares its name with a base, hence prop_keys() of the shipped classes is history-independent outright (decide +kernel)',
 	'shipped_keys_nodup / shipped_terminals_declare_nothing / shipped_wf_reduces': 'no shipped class repeats an expandable key, ITerminal classes declare none; so for trees of shipped classes KeyConsistent and WF clauses 1 and 3 hold by the table and WF reduces to clause 2 (under) and clause 4 (annotation = shape), the two checked on every exported tree',
+	'shipped_getters_cover / shipped_annotation_matches_body': 'GENERATED from the BODIES of the expandable getters on every run (translate/gen_getter_shapes.py: shape inference over the AST, helper shapes read from the annotations in node.py, anything unknown is a TranslateError): the table covers exactly prop_keys() of every shipped class, and for all 165 (class, key) pairs the definition getattr(cls, key) resolves to is annotated list[...] exactly when every return of its body yields a list (decide +kernel) — WF clause 4 for the shipped definitions without waiting for a tree that exhibits it',
+	'shipped_wf_reduces_to_under (shippedShaped_instance, shippedShaped_clause4)': 'for trees of shipped classes whose property values have the shape of the getter bodies (ShippedShaped: compared with the running code by stream getter-shapes) WF reduces to clause 2 alone (nothing under a node whose properties yield nothing)',
 	'chain_semantics': 'Middleware chaining is in the model: the newest callback of an action runs; a plain one shadows the rest, one declaring `next` receives the rest of the chain on the same event (HProg.bind), past the end IndexError -> Errors.Fatal; runProg and denoteProg treat bind alike, so all theorems cover chained registrations',
 	'prop_keys_history_independent(_from)': 'Node.prop_keys over any class table whose MROs have pairwise distinct class names: for every order/repetition of calls each answer is the cache-free MRO computation (invariant: cache subset of the graph of the pure function)',
 	'prop_keys_fixed_key_counterexample': 'NOT prop_keys_fixed_key_statement: with the attribute name not carrying the class name (the seeded mutation) a subclass asked after its base answers with the base\'s list',
@@ -2156,6 +2218,45 @@ def node_classes_vs_import(tab: dict[str, Any]) -> list[str]:
 	return out
 
 
+def stream_getter_shapes(rows: list[dict[str, Any]]) -> Stream:
+	"""Generated/GetterShapes.lean (what `shipped_annotation_matches_body` / `ShippedShaped` speak about) against the running
+	code: per class id the name, the keys in prop_keys() order (read from the embed metadata, not through the prop_keys
+	cache) with the annotation flag as `Procedure.__is_prop_list_by` reads it from the imported class, and for every
+	(class, key) whose value the harness read on a real node during this run the run-time shape(s) observed."""
+	from rogw.tranp.syntax.node.node import Node
+	real = {c.__name__: c for c in definition_classes() if c.__module__.startswith('rogw.')}
+	real['Node'] = Node
+	cases = []
+	for i, r in enumerate(rows):
+		c = real.get(r['name'])
+		ops = [f'gs.name\t{i}', f'gs.row\t{i}']
+		if c is None:
+			outs = ['class not importable', '?']
+		else:
+			try:
+				outs = [c.__name__, ','.join(f"{k}:{'L' if getattr(getattr(c, k).fget.__annotations__['return'], '__origin__', None) is list else 'O'}" for k in declared_props(c)) or '-']
+			except Exception as e:  # noqa: BLE001
+				outs = [c.__name__, 'raised ' + canon_exc(e)]
+		seen = 0
+		for e in r['entries']:
+			obs = SHAPE_SEEN.get((i, e['key']))
+			if obs:
+				seen += 1
+				ops.append(f"gs.shape\t{i}\t{hx(e['key'])}")
+				outs.append('/'.join(sorted(obs)))
+		for (ci, k), obs in SHAPE_SEEN.items():
+			if ci == i and all(e['key'] != k for e in r['entries']):
+				ops.append(f'gs.shape\t{i}\t{hx(k)}')  # a key the running class has and the generated row lacks: the model answers bad-op
+				outs.append('/'.join(sorted(obs)))
+		cases.append(({'cls': r['name'], 'keys': len(r['entries']), 'seen': seen}, ops, outs))
+	st = common.correspond('getter-shapes', cases, 'proc', classify=lambda d: 'no expandable key' if not d['keys'] else
+		'every key observed on real nodes' if d['seen'] == d['keys'] else 'some keys observed' if d['seen'] else 'class not met in this run (static row only)')
+	total = sum(len(r['entries']) for r in rows)
+	st.note = (f'{len(SHAPE_SEEN)} of {total} (class, key) pairs met on real nodes in this run (every property read of the exports and the property walks is recorded); '
+		'an unobserved pair is covered by the static row (keys + annotation flag vs the imported class) only')
+	return st
+
+
 def guarded_stream(name: str, fn: Any) -> Any:
 	"""A stream function that raises (real code or harness) yields a broken stream, not exit 2."""
 	try:
@@ -2183,11 +2284,15 @@ def guarded_search(name: str, fn: Any) -> SearchResult:
 
 def run(ctx: Ctx) -> int:
 	translate_ok, translate_msg = True, ''
+	shape_rows: list[dict[str, Any]] = []
 	with ctx.timed('translate'):
 		try:
-			from translate import gen_node_classes, gen_procedure_state
+			from translate import gen_getter_shapes, gen_node_classes, gen_procedure_state
 			ctx.generated_tables.extend(gen_procedure_state.generate())
 			ctx.generated_tables.extend(gen_node_classes.generate())
+			ctx.generated_tables.extend(gen_getter_shapes.generate())
+			shape_rows.extend(gen_getter_shapes.shape_table())
+			SHAPE_CLASSES.update({r['name']: i for i, r in enumerate(shape_rows)})
 			mismatch = node_classes_vs_import(gen_node_classes.class_table())
 			if mismatch:
 				raise ValueError(f'generated node-class table differs from the imported classes: {mismatch[:3]}')
@@ -2227,12 +2332,15 @@ def run(ctx: Ctx) -> int:
 		with ctx.timed('search_reparse'):
 			s4 = guarded_search('reparse', lambda: search_reparse(ctx))
 		searches = [s1, s2, s3, s4, guarded_search('nested-catch', lambda: search_nested_catch(ctx))]
+	with ctx.timed('getter_shapes'):
+		# last: it reports the shapes met by all streams and searches above
+		streams.append(guarded_stream('getter-shapes', lambda: stream_getter_shapes(shape_rows)))
 	return common.finish(ctx, proof, streams, searches,
 		translate_ok=translate_ok, translate_msg=translate_msg,
 		statements=STATEMENTS,
 		partial={
 			'proved': 'event alignment, single/list distinction, order, no leak between siblings, exactly one final result, stacks restored, nested runs isolated — for every tree satisfying WF and every handler program that does not catch nested failures',
-			'correspondence_only': 'that real node trees satisfy WF (checked on every exported tree and on the class table); that property getters are stable between the two reads',
+			'correspondence_only': 'that real node trees satisfy WF clause 2 (checked on every exported tree; clauses 1, 3 by the generated class table, clause 4 by the generated getter-shape table whose inferred shapes are compared with the run-time shapes of every property value read in this run); that property getters are stable between the two reads',
 			'false_on_current_code': 'failed_nested_statement (handler catching a nested failure) — no such handler exists in tranp',
 			'checked_on_real_trees': 'under_empty_iff against the real Nodes.expand on every real node whose properties yield nothing; which classes have a non-empty _under_expand() there (all ITerminal, so never consulted)',
 		},
@@ -2243,6 +2351,7 @@ def run(ctx: Ctx) -> int:
 			'handlers touch the procedure only through exec (stacks are name-mangled private state)',
 			'a handler that declares `next` does not catch the exception of next() (HProg has no catch for it); no tranp handler declares `next` at all (counted by the translator)',
 			'Python recursion limit is not reached (model: nesting budget)',
+			'ShippedShaped: the run-time shape of a property value is the shape inferred from the getter body (the inference trusts the list/one annotations of the non-expandable helpers it meets: _children, _at, _by, as_a, block, sub_types, ...); compared on every property value read in the run (stream getter-shapes reports how many of the 165 pairs were met)',
 		],
 		trusted=['the 2.6k lines of node definitions enter as exported trees, not as model'])
 
@@ -2276,6 +2385,6 @@ def replay(ctx: Ctx, path: str) -> int:
 		else:
 			ep = load_entrypoint(app, inp['source'])
 			if ep is not None:
-				print('replay: identity oracle on the recorded source ->', identity_oracle(ep))
+				print(f"replay: identity oracle on the recorded source, handler layout {inp.get('layout', 'fallback')} ->", IdentityRun(inp.get('layout', 'fallback'), int(inp.get('salt', 0))).check(ep))
 	ctx2 = Ctx(PROP, rec.get('tier', 'quick'), int(rec.get('seed', 0)))
 	return run(ctx2)
